@@ -19,14 +19,30 @@ import (
 var (
 	P      = new(big.Int).Exp(big.NewInt(10), big.NewInt(18), nil)
 	two255 = new(big.Int).Lsh(big.NewInt(1), 255)
+	maxInt = new(big.Int).Sub(new(big.Int).Lsh(big.NewInt(1), 256), big.NewInt(1))
 )
 
-func bi(x int64) *big.Int        { return big.NewInt(x) }
-func si(x *big.Int) sdkmath.Int  { return sdkmath.NewIntFromBigInt(x) }
+// clamp keeps generated amounts inside sdkmath.Int's range so that the printed input is the real one
+func clamp(x *big.Int) *big.Int {
+	if x.BitLen() > 256 {
+		return new(big.Int).Set(maxInt)
+	}
+	return x
+}
+
+func bi(x int64) *big.Int { return big.NewInt(x) }
+
+// si converts to sdkmath.Int; values beyond its 256-bit range are clamped to the largest one
+func si(x *big.Int) sdkmath.Int {
+	if x.BitLen() > 256 {
+		x = maxInt
+	}
+	return sdkmath.NewIntFromBigInt(x)
+}
 func dec(m *big.Int) sdkmath.LegacyDec { return sdkmath.LegacyNewDecFromBigIntWithPrec(m, 18) }
-func add(a, b *big.Int) *big.Int { return new(big.Int).Add(a, b) }
-func sub(a, b *big.Int) *big.Int { return new(big.Int).Sub(a, b) }
-func mul(a, b *big.Int) *big.Int { return new(big.Int).Mul(a, b) }
+func add(a, b *big.Int) *big.Int       { return new(big.Int).Add(a, b) }
+func sub(a, b *big.Int) *big.Int       { return new(big.Int).Sub(a, b) }
+func mul(a, b *big.Int) *big.Int       { return new(big.Int).Mul(a, b) }
 
 type pool struct{ a, b, s *big.Int }
 
@@ -536,6 +552,7 @@ func main() {
 		if r.Chance(3) {
 			da = bi(r.Range(-1, 0))
 		}
+		da, db = clamp(da), clamp(db)
 		g.caseAdd(p, da, db, true)
 
 		// withdrawals: 1, S-1, S, S+1, the share amount worth exactly one unit, random
@@ -550,7 +567,7 @@ func main() {
 		default:
 			sh = add(r.BigBelow(p.s), bi(1))
 		}
-		g.caseRem(p, sh, true)
+		g.caseRem(p, clamp(sh), true)
 
 		// swaps
 		kind := c.Pick(r, []string{"eab", "eba", "aeb", "bea"})
@@ -595,7 +612,7 @@ func main() {
 				amt = add(r.BigBelow(outR), bi(1))
 			}
 		}
-		g.caseSwap(kind, p, amt, fee, true)
+		g.caseSwap(kind, p, clamp(amt), fee, true)
 	}
 
 	// ---- 3. sequences of swaps (no free token)
